@@ -2,6 +2,7 @@
 C18 — An inbox lists exactly the notifications sent to it, not blocked and not deleted.
 -/
 import Canine.Notif.Model
+import Canine.Query.Notif
 import Canine.Generated.KeyFacts
 namespace Canine.Notif
 
@@ -265,5 +266,47 @@ def C18_expectedKeys : List (String × String) := [
   ("x/notifications/types/keys.go:KeyPrefix", "caccc65e7667915d")]
 
 theorem C18_store_keys_as_modelled : Generated.keyFns_notifications = C18_expectedKeys := by decide
+
+/-! ### The inbox as clients read it (`AllNotificationsByAddress`) -/
+
+/-- cutting a list into consecutive windows of `limit` and gluing them back gives the list -/
+theorem windows_cover {α : Type} (limit : Nat) (hl : 0 < limit) :
+    ∀ (n : Nat) (all : List α), all.length ≤ n * limit →
+      (List.range n).flatMap (fun k => (all.drop (k * limit)).take limit) = all := by
+  intro n
+  induction n with
+  | zero => intro all h; simp at h; simp [h]
+  | succ n ih =>
+    intro all h
+    rw [List.range_succ_eq_map, List.flatMap_cons, List.flatMap_map]
+    simp only [Nat.zero_mul, List.drop_zero]
+    have hrest : (List.range n).flatMap (fun k => (all.drop ((k + 1) * limit)).take limit) = all.drop limit := by
+      have := ih (all.drop limit) (by simp only [List.length_drop]; rw [Nat.succ_mul] at h; omega)
+      rw [← this]
+      congr 1
+      funext k
+      rw [List.drop_drop, Nat.succ_mul, Nat.add_comm]
+    simp only [Function.comp, Nat.succ_eq_add_one]
+    rw [hrest, List.take_append_drop]
+
+/-- **One page of the inbox query**: with a positive limit and an offset that is a multiple of it,
+`AllNotificationsByAddress` returns that window of the inbox (the notification-shaped entries
+under `to/`, in key order), counts what it returns and hands out no `NextKey`. -/
+theorem C18_inbox_query_page (s : State) (to : String) (k limit : Nat) (hl : 0 < limit)
+    (hk : k * limit ≤ (Query.inboxRaw s to).length) :
+    Query.run s (.byAddress to (some { offset := k * limit, limit := limit })) =
+      .notifs (((Query.inboxRaw s to).drop (k * limit)).take limit) none
+        (((Query.inboxRaw s to).drop (k * limit)).take limit).length := by
+  have hne : ¬ limit = 0 := by omega
+  simp only [Query.run, hne, if_false, Nat.mul_div_cancel _ hl]
+  have : ¬ k * limit > (Query.inboxRaw s to).length := by omega
+  simp [this]
+
+/-- **Paging through the inbox query returns the whole inbox, each entry once**: the pages with
+offsets 0, limit, 2·limit, … glued together are exactly the inbox listing. -/
+theorem C18_inbox_query_pages_cover_the_inbox (s : State) (to : String) (limit n : Nat) (hl : 0 < limit)
+    (hn : (Query.inboxRaw s to).length ≤ n * limit) :
+    (List.range n).flatMap (fun k => ((Query.inboxRaw s to).drop (k * limit)).take limit) = Query.inboxRaw s to :=
+  windows_cover limit hl n _ hn
 
 end Canine.Notif
